@@ -174,15 +174,22 @@ func concCmd(args []string) error {
 		}
 		obs["orderMismatches"] = orderMismatches
 		mismatches, compared := 0, 0
-		var mu sync.Mutex
 		first := ""
+		// per-goroutine tallies, merged after the round: no lock is shared between the workers while they run, so the race detector
+		// sees no accidental happens-before edges between their library calls
+		type tally struct {
+			compared, mismatches int
+			first                string
+		}
 		for r := 0; r < rounds; r++ {
 			var wg sync.WaitGroup
 			start := make(chan struct{})
+			tallies := make([]tally, g)
 			for w := 0; w < g; w++ {
 				wg.Add(1)
 				go func(w int) {
 					defer wg.Done()
+					t := &tallies[w]
 					<-start
 					// every goroutine processes the whole corpus, each starting at its own offset
 					// and parses out of its own reused receive buffer; a value is projected after the next frame has arrived
@@ -198,15 +205,13 @@ func concCmd(args []string) error {
 						}
 						if prev != nil {
 							got := prev()
-							mu.Lock()
-							compared++
+							t.compared++
 							if !bytes.Equal(got, seq[prevIdx]) {
-								mismatches++
-								if first == "" {
-									first, _ = corpus[prevIdx]["id"].(string)
+								t.mismatches++
+								if t.first == "" {
+									t.first, _ = corpus[prevIdx]["id"].(string)
 								}
 							}
-							mu.Unlock()
 						}
 						prev, prevIdx = cur, i
 					}
@@ -214,6 +219,13 @@ func concCmd(args []string) error {
 			}
 			close(start)
 			wg.Wait()
+			for _, t := range tallies {
+				compared += t.compared
+				mismatches += t.mismatches
+				if first == "" {
+					first = t.first
+				}
+			}
 		}
 		obs["compared"], obs["mismatches"], obs["scenarios"] = compared, mismatches, len(corpus)
 		if first != "" {
